@@ -9,6 +9,7 @@
 #include <sstream>
 #include "lib/ebus/data.h"
 #include "lib/ebus/datatype.h"
+#include "lib/ebus/message.h"
 #include "lib/ebus/result.h"
 #include "lib/ebus/symbol.h"
 #include "vout.h"
@@ -231,8 +232,103 @@ class SeqCheck {
     discover(e0, base);
     checkLengths(e0);
     checkBarriers();
+    checkSelection();
     checkEncodings();
     return true;
+  }
+
+  // (6) addressing a single field: the counts per part / per name, the name and field by index, and the decode
+  // of one field selected by name or by message-wide index (as Message::decodeLastData does it: master part
+  // first, then slave part) must be the values of exactly that field - ignored fields are never counted.
+  // Reference: the definition list itself.  The index order is only fixed when no slave field is defined
+  // before a master field, other sequences are checked by name and count only.
+  void checkSelection() {
+    vector<size_t> vis;   // non-ignored fields in definition order
+    size_t nm = 0, ns = 0;
+    bool canonical = true, seenSlave = false;
+    for (size_t i = 0; i < n; i++) {
+      if (seq[i].part == 's') seenSlave = true; else if (seenSlave) canonical = false;
+      if (ft(i).ign) continue;
+      vis.push_back(i);
+      (seq[i].part == 'm' ? nm : ns)++;
+    }
+    R.evaluations++;
+    if (whole->getCount(pt_any, nullptr) != vis.size() || whole->getCount(pt_masterData, nullptr) != nm || whole->getCount(pt_slaveData, nullptr) != ns) {
+      fail("field-count", "getCount any/master/slave = " + std::to_string(whole->getCount(pt_any, nullptr)) + "/" + std::to_string(whole->getCount(pt_masterData, nullptr)) + "/" +
+           std::to_string(whole->getCount(pt_slaveData, nullptr)) + ", defined (not ignored) " + std::to_string(vis.size()) + "/" + std::to_string(nm) + "/" + std::to_string(ns));
+      return;
+    }
+    for (size_t i = 0; i < n; i++) {
+      string nmi = "f" + std::to_string(i);
+      size_t want = ft(i).ign ? 0 : 1;
+      PartType own = seq[i].part == 'm' ? pt_masterData : pt_slaveData, other = seq[i].part == 'm' ? pt_slaveData : pt_masterData;
+      if (whole->getCount(pt_any, nmi.c_str()) != want || whole->getCount(own, nmi.c_str()) != want || whole->getCount(other, nmi.c_str()) != 0) {
+        fail("field-count", "getCount by name " + nmi + " (" + ft(i).type + "." + seq[i].part + ") any/own/other part = " + std::to_string(whole->getCount(pt_any, nmi.c_str())) + "/" +
+             std::to_string(whole->getCount(own, nmi.c_str())) + "/" + std::to_string(whole->getCount(other, nmi.c_str())) + ", expected " + std::to_string(want) + "/" + std::to_string(want) + "/0");
+        return;
+      }
+    }
+    for (size_t k = 0; k <= vis.size(); k++) {
+      string gn = whole->getName((ssize_t)k);
+      const SingleDataField* gf = whole->getField((ssize_t)k);
+      string wantName = k < vis.size() ? "f" + std::to_string(vis[k]) : "";
+      if (gn != wantName || (gf != nullptr) != (k < vis.size()) || (gf && gf->getName(-1) != wantName)) {
+        fail("field-by-index", "getName/getField(" + std::to_string(k) + ") = '" + gn + "'/" + (gf ? "'" + gf->getName(-1) + "'" : string("none")) + ", expected '" + wantName + "'");
+        return;
+      }
+    }
+    // decode of one selected field through a real Message
+    std::map<string, string> attrs;
+    vector<symbol_t> id = {0xb5, 0x09};
+    Message msg("", "c", "", "n", false, false, attrs, SYN, 0x08, id, whole, false);
+    vector<size_t> order;  // message-wide index order: master part fields, then slave part fields
+    for (char part : {'m', 's'}) for (size_t i : vis) if (seq[i].part == part) order.push_back(i);
+    static const OutputFormat fmts[] = {OF_NONE, OF_NAMES, OF_JSON | OF_NAMES};
+    for (int u = 0; u < nv; u++) {
+      vector<int> c(n, 0);
+      for (size_t i = 0; i < n; i++) if (!ft(i).ign) c[i] = u;
+      Enc e = encode(whole, seq, valuesFor(c));
+      if (e.res != RESULT_OK) return;
+      MasterSymbolString ms; loadM(&ms, e.m);
+      SlaveSymbolString ss; loadS(&ss, e.s);
+      msg.storeLastData(ms, ss);
+      for (OutputFormat fmt : fmts) {
+        for (size_t k = 0; k <= order.size(); k++) {
+          for (int byName = 0; byName < 2; byName++) {
+            if (!byName && !canonical) continue;
+            if (byName && k == order.size()) continue;
+            std::ostringstream got;
+            string nmk = k < order.size() ? "f" + std::to_string(order[k]) : "";
+            errno = 0;
+            result_t r = byName ? msg.decodeLastData(pt_any, false, nmk.c_str(), -1, fmt, &got)
+                                : msg.decodeLastData(pt_any, false, nullptr, (ssize_t)k, fmt, &got);
+            R.evaluations++; R.tracesValidated++; R.transitions++;
+            string what = byName ? "by name " + nmk : "by index " + std::to_string(k);
+            if (k == order.size()) {
+              if (r >= RESULT_OK && !got.str().empty()) fail("select-decode", "decode " + what + " (beyond the last field) gives '" + got.str() + "'");
+              continue;
+            }
+            size_t i = order[k];
+            size_t lo = owned[i].empty() ? 0 : owned[i].minByte();
+            const Bytes& d = seq[i].part == 'm' ? e.m : e.s;
+            if (owned[i].empty() || !alone[i]) continue;
+            size_t len = ft(i).var ? (d.size() > lo ? d.size() - lo : 0) : (size_t)ft(i).bytes;
+            Bytes own;
+            for (size_t b = lo; b < lo + len && b < d.size(); b++) own.push_back(d[b]);
+            std::ostringstream exp;
+            result_t re;
+            if (seq[i].part == 'm') { MasterSymbolString a; loadM(&a, own); re = alone[i]->read(a, 0, false, byName ? nmk.c_str() : nullptr, byName ? -1 : 0, fmt, -1, &exp); }
+            else { SlaveSymbolString a; loadS(&a, own); re = alone[i]->read(a, 0, false, byName ? nmk.c_str() : nullptr, byName ? -1 : 0, fmt, -1, &exp); }
+            if (re < RESULT_OK) continue;  // overlapping definitions may encode undecodable values (don't-care)
+            if (r < RESULT_OK || got.str() != exp.str()) {
+              fail("select-decode", "decode " + what + " (" + ft(i).type + "." + seq[i].part + ") of m=" + hx(e.m) + " s=" + hx(e.s) + " gives " + (r < RESULT_OK ? string(getResultCode(r)) : "'" + got.str() + "'") +
+                   ", that field alone '" + exp.str() + "'");
+              return;
+            }
+          }
+        }
+      }
+    }
   }
 
   // light mode: written length == usedLength == getLength, and the written bytes are readable
